@@ -480,7 +480,10 @@ pub struct Databases {
     pub replication_ema: std::sync::RwLock<NunEma>,
     pub map: std::sync::RwLock<HashMap<String, Database>>,
     pub id_name_db_map: std::sync::RwLock<HashMap<u64, String>>,
+    #[cfg(not(nundb_verif))]
     pub pending_opps: std::sync::RwLock<HashMap<u64, ReplicationMessage>>,
+    #[cfg(nundb_verif)]
+    pub pending_opps: RwLock<HashMap<u64, ReplicationMessage>>,
     pub keys_map: std::sync::RwLock<HashMap<String, u64>>,
     pub id_keys_map: std::sync::RwLock<HashMap<u64, String>>,
     pub to_snapshot: RwLock<Vec<(String, bool)>>, // (database_name, reclaim_space)
@@ -1012,7 +1015,10 @@ impl Databases {
             user,
             pwd: pwd.to_string(),
             is_oplog_valid: Arc::new(AtomicBool::new(is_oplog_valid)),
+            #[cfg(not(nundb_verif))]
             pending_opps: std::sync::RwLock::new(pending_opps),
+            #[cfg(nundb_verif)]
+            pending_opps: RwLock::new(pending_opps),
             hasher: DefaultHasher::new(),
         };
 
